@@ -65,7 +65,10 @@ Inductive okind :=
                                                      (* a response arrives; ackfor: piggybacked on the ACK of that call;
                                                         dedup: a confirmable duplicate (same message ID), answered from the
                                                         response cache below the token layer (C05) *)
-| KCancel (cid : nat).                               (* the call's context is cancelled *)
+| KCancel (cid : nat)                                (* the call's context is cancelled *)
+| KBurst (rs : list (bool * bool * nat * list Z * nat * option nat)).
+                                                     (* responses (del, dedup, rid, tok, for, ackfor) that arrive back to
+                                                        back: the calls they answer are looked at after the last one *)
 
 (* result classes of a call: 0 ok, 1 key already exists, 2 context, 3 other error, 9 hang/panic *)
 Definition tok_eqb (a b : list Z) : bool := if list_eq_dec Z.eq_dec a b then true else false.
@@ -132,6 +135,16 @@ Section Class.
   Definition remove_returned (l : list oret) (o : list (nat * list Z)) : list (nat * list Z) :=
     filter (fun p => negb (returned_now (fst p) l)) o.
 
+  (* a response arrives: piggybacked, it acknowledges; if it is for an outstanding call with this very token
+     (and no other outstanding token has the same key) that call is answered. The set of outstanding calls
+     does not change here. *)
+  Definition resp_arrives (s : ostate) (m : bool * bool * nat * list Z * nat * option nat) : ostate :=
+    let '(del, dedup, rid, tok, f, ackfor) := m in
+    let hit := negb dedup && existsb (fun p => Nat.eqb (fst p) f && tok_eqb (snd p) tok) (outst s)
+               && Nat.eqb (length (filter (fun p => hash (snd p) =? hash tok) (outst s))) 1 in
+    mkO (outst s) (finished s) (match ackfor with Some c => c :: ackd s | None => ackd s end)
+        (if hit then f :: answered s else answered s) (rid :: injected s) (returned s).
+
   (* (class, next state) of one observed event *)
   Definition ev_class (s : ostate) (e : oev) : N * ostate :=
     let rets := o_rets e in
@@ -142,12 +155,9 @@ Section Class.
           mkO (if rejected_now cid rets then outst s else outst s ++ [(cid, tok)]) (finished s)
               (if a then cid :: ackd s else ackd s) (answered s) (injected s) (returned s)
       | KAck cid => mkO (outst s) (finished s) (cid :: ackd s) (answered s) (injected s) (returned s)
-      | KResp del dedup rid tok f ackfor =>
-          let hit := negb dedup && existsb (fun p => Nat.eqb (fst p) f && tok_eqb (snd p) tok) (outst s)
-                     && Nat.eqb (length (filter (fun p => hash (snd p) =? hash tok) (outst s))) 1 in
-          mkO (outst s) (finished s) (match ackfor with Some c => c :: ackd s | None => ackd s end)
-              (if hit then f :: answered s else answered s) (rid :: injected s) (returned s)
+      | KResp del dedup rid tok f ackfor => resp_arrives s (del, dedup, rid, tok, f, ackfor)
       | KCancel cid => s
+      | KBurst rs => fold_left resp_arrives rs s
       end in
     let kind_class : N :=
       match o_k e with
